@@ -484,6 +484,7 @@ func fromCommon(c common) (Manifest, error) {
 				Signatures    []any                   `json:"signatures,omitempty"`
 				Manifests     []descriptor.Descriptor `json:"manifests,omitempty"`
 				Layers        []descriptor.Descriptor `json:"layers,omitempty"`
+				Config        *descriptor.Descriptor  `json:"config,omitempty"`
 			}{}
 			err = json.Unmarshal(c.rawBody, &mt)
 			if mt.MediaType != "" {
@@ -500,6 +501,13 @@ func fromCommon(c common) (Manifest, error) {
 				}
 			} else if len(mt.Layers) > 0 {
 				if strings.HasPrefix(mt.Layers[0].MediaType, "application/vnd.docker.") {
+					c.desc.MediaType = mediatype.Docker2Manifest
+				} else {
+					c.desc.MediaType = mediatype.OCI1Manifest
+				}
+			} else if mt.SchemaVersion == 2 && mt.Config != nil {
+				// an image without layers and without the optional mediaType field
+				if strings.HasPrefix(mt.Config.MediaType, "application/vnd.docker.") {
 					c.desc.MediaType = mediatype.Docker2Manifest
 				} else {
 					c.desc.MediaType = mediatype.OCI1Manifest
